@@ -64,6 +64,14 @@ Definition probe_names (url : string) (cs : list (list piece)) : list string :=
 (* relative(): directory part of the importing file's url, then the url *)
 Definition relative (cur url : string) : string := fst (split_dir cur) ++ url.
 
+(* Context::find_file (after fix 3dfdada): do_find_file on the relative url; when that finds nothing
+   and the relative url differs from the url, do_find_file on the url unchanged.  do_find_file scans
+   its names in order and stops at the first hit or error, so the two calls in sequence are one scan
+   of the concatenated list (Proofs/C04.v try_names_app states the two-phase form). *)
+Definition find_names (cur : string) (k : kind) (u : string) : list string :=
+  let rel := relative cur u in
+  probe_names rel (cands k) ++ (if String.eqb rel u then [] else probe_names u (cands k)).
+
 (* SourceFormat::try_from *)
 Definition known_format (path : string) : bool := ends_with path ".scss" || ends_with path ".css".
 
@@ -166,7 +174,7 @@ Inductive located : Type :=
 
 (* Context::find_file: relative, lookup, SourceFile::read, lock_loading *)
 Definition find_file (cur : string) (k : kind) (u : string) (s : state) : located :=
-  match try_names s (probe_names (relative cur u) (cands k)) with
+  match try_names s (find_names cur k u) with
   | FFail s' => LErr ELoaderFail s'
   | FNone s' => LNone s'
   | FFound p id rd s' =>
